@@ -63,7 +63,7 @@ def _kind_of_dtype(dt):
         return None
     if dt in ('f', 'i', 'b'):
         return dt
-    n = getattr(dt, '__name__', str(dt))
+    n = getattr(dt, '__name__', str(dt)).lower()
     if 'float' in n:
         return 'f'
     if 'bool' in n:
